@@ -446,3 +446,82 @@ package scan
 //@ func NewRateLimitScanner
 //@   props C15
 //@   ensures isptr(ret, rateLimitScanner) && asptr(ret, rateLimitScanner).Scanner == delegate && asptr(ret, rateLimitScanner).limiter == limiter
+
+// ---------------------------------------------------------------------------------------------
+// Constructors and outer functions of the stages (C07 C01 C08 C13 C19 C02): every wrapper keeps exactly the parts it
+// was given; the outer function of a stage fails with the delegate's error and otherwise spawns its worker once on
+// the channel it returns.
+//@ func NewPacketSource
+//@   props C07 C01
+//@   ensures isptr(ret, packetSource) && asptr(ret, packetSource).reqgen == reqgen && asptr(ret, packetSource).pktgen == pktgen
+//@ func NewPacketGenerator
+//@   props C07
+//@   ensures isptr(ret, packetGenerator) && asptr(ret, packetGenerator).filler == filler
+//@ func NewPacketMultiGenerator
+//@   props C07 C01
+//@   ensures isptr(ret, packetMultiGenerator) && asptr(ret, packetMultiGenerator).numWorkers == numWorkers && asptr(ret, packetMultiGenerator).gen != nil && asptr(ret, packetMultiGenerator).gen.filler == filler
+//@ func NewPacketEngine
+//@   props C07 C20
+//@   ensures ret != nil && ret.src == ps && ret.snd == s && ret.rcv == r
+//@ func NewEngineResulter
+//@   props C07 C08
+//@   ensures isptr(ret, engineResulter) && asptr(ret, engineResulter).Engine == e && asptr(ret, engineResulter).Resulter == r
+//@ func SetupPacketEngine
+//@   props C07 C20 C15 C03
+//@   opaque packet.NewSender, packet.NewReceiver
+//@   observe NewPacketEngine, NewEngineResulter
+//@   entry row setup: [call packet.NewSender(bind_w) as (snd) ; call packet.NewReceiver(bind_rd, bind_pr) as (rcv) ; call NewPacketEngine(bind_src, snd, rcv) as (eng) ; call NewEngineResulter(bind_e2, bind_rs) as (er)]
+//@                       when w == rw && rd == rw && pr == m && src == m && rs == m && isptr(e2, PacketEngine) && asptr(e2, PacketEngine) == eng && ret == er -> exit
+//@ func NewIPPortGenerator
+//@   props C01
+//@   ensures isptr(ret, ipPortGenerator) && asptr(ret, ipPortGenerator).ipgen == ipgen && asptr(ret, ipPortGenerator).portgen == portgen
+//@ func NewIPRequestGenerator
+//@   props C01 C19
+//@   ensures isptr(ret, ipRequestGenerator) && asptr(ret, ipRequestGenerator).ipgen == ipgen
+//@ func NewFileIPPortGenerator
+//@   props C01 C13
+//@   ensures isptr(ret, fileIPPortGenerator) && asptr(ret, fileIPPortGenerator).openFile == openFile
+//@ func NewFileIPGenerator
+//@   props C01 C13
+//@   ensures isptr(ret, fileIPGenerator) && asptr(ret, fileIPGenerator).openFile == openFile
+//@ func NewLiveRequestGenerator
+//@   props C19
+//@   ensures isptr(ret, liveRequestGenerator) && asptr(ret, liveRequestGenerator).delegate == rg && asptr(ret, liveRequestGenerator).rescanTimeout == rescanTimeout
+//@ func NewFilterIPRequestGenerator
+//@   props C02 C13
+//@   ensures isptr(ret, filterIPRequestGenerator) && asptr(ret, filterIPRequestGenerator).delegate == delegate && asptr(ret, filterIPRequestGenerator).excludeIPs == excludeIPs
+//@ func (*filterIPRequestGenerator).GenerateRequests
+//@   props C02 C13 C01
+//@   observe GenerateRequests
+//@   entry row fail:  [call GenerateRequests(rg.delegate, ctx, r) as (rq, e)] when e != nil && ret0 == nil && ret1 == e -> exit
+//@   entry row start: [call GenerateRequests(rg.delegate, ctx, r) as (rq, e) ; go (*filterIPRequestGenerator).GenerateRequests$1{out: bind_o, ctx: bind_c, requests: bind_rq2, rg: bind_g2}]
+//@                       when e == nil && ret1 == nil && ret0 == o && rq2 == rq && c == ctx && g2 == rg -> exit
+//@ func (*fileIPPortGenerator).GenerateRequests
+//@   props C01 C13
+//@   observe openFile
+//@   entry row fail:  [call openFile() as (in, e)] when e != nil && ret0 == nil && ret1 == e -> exit
+//@   entry row start: [call openFile() as (in, e) ; go (*fileIPPortGenerator).GenerateRequests$1{out: bind_o, ctx: bind_c, input: bind_in2, r: bind_r2}]
+//@                       when e == nil && ret1 == nil && ret0 == o && in2 == in && c == ctx && r2 == r -> exit
+//@ func (*fileIPGenerator).IPs
+//@   props C01 C13
+//@   observe openFile
+//@   entry row fail:  [call openFile() as (in, e)] when e != nil && ret0 == nil && ret1 == e -> exit
+//@   entry row start: [call openFile() as (in, e) ; go (*fileIPGenerator).IPs$1{out: bind_o, ctx: bind_c, input: bind_in2}]
+//@                       when e == nil && ret1 == nil && ret0 == o && in2 == in && c == ctx -> exit
+//@ func NewResultChan
+//@   props C08 C12 C14 C16
+//@   entry row start: [go NewResultChan$1{results: bind_rs, internalResults: bind_ir, ctx: bind_c}]
+//@                       when c == ctx && isptr(ret, resultChan) && asptr(ret, resultChan).results == rs && asptr(ret, resultChan).internalResults == ir && asptr(ret, resultChan).ctx == ctx && rs != ir -> exit
+//@ func (*resultChan).Chan
+//@   props C08 C14
+//@   ensures ret == c.results
+//@ func (*GenericEngine).Results
+//@   props C08
+//@   observe Chan
+//@   entry row chan: [call Chan(e.results) as (c)] when ret == c -> exit
+//@ func isValidPort
+//@   props C13 C18
+//@   ensures ret <==> (1 <= port && port <= 65535)
+//@ func (*rangeIterator).Int
+//@   props C04 C01
+//@   ensures ret == it.I
